@@ -113,6 +113,30 @@ CHECKS = [
              "trailing slashes), compared with the reference model (550 on denial, tree/cwd/pending rename unchanged).",
      "design_ref": "DESIGN.md §5 C04", "note": ENV_NOTE,
      "technique": "bounded-exhaustive input enumeration against an independent oracle + exhaustive wire cases against a reference model"},
+    {"property_id": "C01", "level": "model_checking",
+     "text": "Through the real client and server: every (op in STOR/APPE/RETR with and without REST, new/existing target, "
+             "payload length around block multiples, offset 0/inside/at end/beyond, block size, client chunking incl. all "
+             "compositions of tiny payloads, backend, passive mode, throttle) case is executed and compared byte for byte "
+             "with the content model; a second session reads the file back (RETR, MLST, MLSD) right after the uploader "
+             "received the completion reply; a subset runs under every schedule with <= d deviations including every "
+             "re-segmentation of control and data streams.",
+     "design_ref": "DESIGN.md §5 C01", "note": ENV_NOTE,
+     "technique": "bounded-exhaustive input enumeration + deviation-bounded stateless schedule/segmentation exploration of the implementation"},
+    {"property_id": "C06", "level": "model_checking",
+     "text": "The real Server.write_response output for all 1000 codes x 16 line shapes (single-line), all line lists of "
+             "1..3 lines over the 16-line alphabet (4-5 lines over reduced alphabets) in plain and list mode, reply pairs, "
+             "latin-1, and foreign-code continuation lines is decoded by the real Client.parse_response under all single "
+             "cuts, all double cuts (short streams) and byte-by-byte feeding; Code.matches is compared with the digit-for-"
+             "digit definition on all 1000 codes x all 400 masks of length 0..3.",
+     "design_ref": "DESIGN.md §5 C06", "note": "Trusted base: the expected-info convention (first character after the code is the separator) written from the documented behaviour of parse_response; asyncio.StreamReader.",
+     "technique": "bounded-exhaustive enumeration of encoder inputs x segmentations through the real encoder and decoder"},
+    {"property_id": "C20", "level": "model_checking",
+     "text": "Non-interference: for 7 login-history shapes x 3 PASS spellings (+ Client.login) x every password of length "
+             "1..2 (thorough 3) over 9 metacharacters plus 12 special strings, the complete formatted log stream (all "
+             "loggers at DEBUG: message, args, tracebacks, extras) of a deterministic execution must equal that of a "
+             "reference password of the same length class; plus a literal-substring check.",
+     "design_ref": "DESIGN.md §5 C20", "note": ENV_NOTE,
+     "technique": "exhaustive input enumeration with a two-run non-interference comparison on a deterministic event loop"},
 ]
 
 _ALL = [f"C{i:02d}" for i in range(1, 21)]
